@@ -1,8 +1,8 @@
 #!/bin/sh
-# Re-run every claimed check (quick or $1) in parallel on the current /repo tree and summarise.
+# Re-run every claimed check (quick or $1) in parallel on the current /repo tree and summarise.  VERIF_SEED is honoured.
 cd "$(dirname "$0")/.."
 TIER=${1:-quick}
 ./setup.sh >/dev/null 2>&1
 IDS=$(python3 -c "import json; print(' '.join(c['property_id'] for c in json.load(open('MANIFEST.json'))['checks']))")
 mkdir -p .scratch/logs
-echo $IDS | tr ' ' '\n' | xargs -P ${JOBS:-8} -I{} sh -c "./check {} --tier $TIER > .scratch/logs/{}.$TIER.log 2>&1; echo {} rc=\$? \$(tail -1 .scratch/logs/{}.$TIER.log | cut -c1-150)"
+echo $IDS | tr ' ' '\n' | xargs -P ${JOBS:-8} -I{} sh -c "./check {} --tier $TIER > .scratch/logs/{}.$TIER.log 2>&1; echo {} rc=\$? \$(grep '^OK\|^VIOLATION\|^INCONCLUSIVE' .scratch/logs/{}.$TIER.log | head -2 | cut -c1-150 | tr '\n' '|')"
